@@ -50,6 +50,7 @@ import math
 
 import numpy as np
 
+from vmc import bfs as vbfs
 from vmc import common
 from vmc.choice import Ctx, Horizon, check_determinism
 from vmc.parallel import run_shards, shard
@@ -535,7 +536,7 @@ def random_jobs(tier):
                     out.append(((kind, sector, pos, r, rot, md), 1, 2, 0))
         plan = [(RANDOM_KINDS, diag[1:], [0, 45, 17], [0.3], 2, 2),
                 (RANDOM_KINDS, diag, [45], [0.7], 1, 3),
-                (RANDOM_KINDS, diag, [17], [0.3], 1, 3),
+                (RANDOM_KINDS, diag[2:3], [17], [0.3], 1, 3),
                 (RANDOM_KINDS[:2], diag[1:2], [45], [0.3], 1, 4)]
     for sc in SCALES:
         for kind, sector in RANDOM_KINDS:
@@ -1476,6 +1477,340 @@ def run_dtypes(chk, kind, form):
 
 
 # ----------------------------------------------------------------------
+# Part J: error paths -- a rejected call raises the documented exception AND leaves everything as it was
+# ----------------------------------------------------------------------
+def behaviour(obj):
+    """what later queries see (cells / shapes / clusters)"""
+    from pyphysim.cell import cell as cellmod
+    out = {"digest": vbfs.digest(obj)}
+    if isinstance(obj, cellmod.Cluster):
+        out["cells"] = [behaviour(c) for c in obj]
+        out["dist"] = np.asarray(obj.calc_dist_all_users_to_each_cell()).tolist()
+        out["wrapped"] = sorted(obj._wrapped_cells)
+        return out
+    out["vertices"] = np.array(obj.vertices, dtype=complex).tolist()
+    out["users"] = [(complex(u.pos), u.cell_id, u.relative_pos, u.marker_color) for u in obj.users]
+    out["inside_centre"] = bool(obj.is_point_inside_shape(complex(obj.pos)))
+    out["border"] = complex(obj.get_border_point(33.0, 0.5))
+    return out
+
+
+ERROR_CASES = ["border_user_ratio_list", "border_user_ratio_scalar", "add_user_outside", "add_user_not_a_node",
+               "invalid_sector", "invalid_sector_many", "cluster_bad_square_size", "cluster_bad_cell_type",
+               "wrap_around_unsupported_size", "cluster_readonly_setters", "cellwrap_readonly_setters",
+               "cluster_border_users_bad_ratio", "delete_users_on_empty"]
+
+
+def run_error_path(chk, name, kind, rot):
+    from pyphysim.cell import cell
+    pos, r = 1 + 2j, 2.5
+    case = {"part": "error_path", "name": name, "kind": kind, "rotation": rot}
+    sig0 = ("error_path", name)
+    with chk.guard(sig0, case):
+        chk.count("eval_error_paths")
+        su = scripted_defaults()
+        draws_before = 0
+        expect = None
+        extra_same = []            # (label, snapshot function) of other objects that must not change either
+        if name.startswith("cluster") or name in ("wrap_around_unsupported_size", "delete_users_on_empty"):
+            ctype = {"Cell": "simple", "Cell3Sec": "3sec", "CellSquare": "square"}[kind]
+            n = 4 if ctype == "square" else 7
+            obj = cell.Cluster(cell_radius=r, num_cells=n, pos=pos, cell_type=ctype, rotation=rot)
+            if name != "delete_users_on_empty":
+                obj.add_border_users([1, 2], [10.0, 200.0], [0.5, 0.9])
+        else:
+            obj = build_shape(kind, pos, r, rot)
+            obj.add_border_user([10.0, 200.0], [0.5, 0.9])
+        if name == "cellwrap_readonly_setters":
+            inner = obj
+            obj = cell.CellWrap(pos + 7, inner, include_users_bool=True)
+            extra_same.append(inner)
+        before = behaviour(obj)
+        before_extra = [behaviour(x) for x in extra_same]
+        node = cell.Node(pos + 40 * r, marker_color="g")
+        calls = {
+            "border_user_ratio_list": (ValueError, lambda: obj.add_border_user([0.0, 90.0, 180.0], [0.5, 0.25, 1.5])),
+            "border_user_ratio_scalar": (ValueError, lambda: obj.add_border_user(10.0, -0.25)),
+            "add_user_outside": (ValueError, lambda: obj.add_user(node, relative_pos_bool=False)),
+            "add_user_not_a_node": ((TypeError, AttributeError), lambda: obj.add_user(pos)),
+            "invalid_sector": (RuntimeError, lambda: obj.add_random_user_in_sector(0)),
+            "invalid_sector_many": (RuntimeError, lambda: obj.add_random_users_in_sector(2, 4, None, 0.3)),
+            "cluster_bad_square_size": (ValueError, lambda: cell.Cluster(r, 5, pos=pos, cell_type="square", rotation=rot)),
+            "cluster_bad_cell_type": (RuntimeError, lambda: cell.Cluster(r, 7, pos=pos, cell_type="octagon", rotation=rot)),
+            "wrap_around_unsupported_size": (RuntimeError, lambda: obj.create_wrap_around_cells()),
+            "cluster_readonly_setters": (AttributeError, None),
+            "cellwrap_readonly_setters": (AttributeError, None),
+            "cluster_border_users_bad_ratio": (ValueError, lambda: obj.add_border_users(1, [0.0, 90.0], [0.5, 1.5])),
+            "delete_users_on_empty": (None, None),
+        }
+        exc, fn = calls[name]
+        fns = [fn]
+        if name == "cluster_readonly_setters":
+            fns = [lambda: setattr(obj, "pos", 0j), lambda: setattr(obj, "radius", 1.0),
+                   lambda: setattr(obj, "rotation", 0.0)]
+        elif name == "cellwrap_readonly_setters":
+            fns = [lambda: setattr(obj, "radius", 1.0), lambda: setattr(obj, "rotation", 0.0)]
+        elif name == "delete_users_on_empty":
+            fns = [lambda: obj.delete_all_users(), lambda: obj.delete_all_users(2), lambda: obj.delete_all_users([1, 3]),
+                   lambda: obj.get_cell_by_id(1).delete_all_users()]
+        for k, f in enumerate(fns):
+            raised = None
+            with patched((np.random, "random_sample", su.random_sample)):
+                try:
+                    f()
+                except Exception as e:  # noqa
+                    raised = e
+            if exc is None:
+                if raised is not None:
+                    chk.fail(sig0 + ("raised",), dict(case, step=k), observed=repr(raised), expected="no exception")
+            elif not isinstance(raised, exc):
+                chk.fail(sig0 + ("documented_exception_not_raised",), dict(case, step=k), observed=repr(raised),
+                         expected=getattr(exc, "__name__", repr(exc)))
+            if su.draws != draws_before:
+                chk.fail(sig0 + ("random_draws_consumed_by_a_rejected_call",), dict(case, step=k), observed=su.draws,
+                         expected=draws_before)
+            after = behaviour(obj)
+            if after != before:
+                diff = [key for key in before if before[key] != after.get(key)]
+                chk.fail(sig0 + ("object_changed_by_a_rejected_call",), dict(case, step=k), observed=diff,
+                         expected="digest and every later query unchanged")
+            for x, b in zip(extra_same, before_extra):
+                if behaviour(x) != b:
+                    chk.fail(sig0 + ("other_object_changed_by_a_rejected_call",), dict(case, step=k))
+        if name == "add_user_outside":
+            if complex(node.pos) != pos + 40 * r or node.cell_id is not None or node.relative_pos is not None \
+                    or node.marker_color != "g":
+                chk.fail(sig0 + ("rejected_node_modified",), case, observed=(node.pos, node.cell_id, node.relative_pos),
+                         expected=(pos + 40 * r, None, None))
+        if name.startswith("cluster_bad"):
+            # class-level state survives the failed constructor: the next clusters are right
+            for n2, t2 in ((4, "square"), (7, "simple"), (3, "3sec")):
+                c2 = cell.Cluster(cell_radius=r, num_cells=n2, pos=pos, cell_type=t2, rotation=rot)
+                check_cluster_geometry(chk, c2, n2, t2, r, pos, rot, dict(case, after_failure=[n2, t2]),
+                                       ("cluster_after_failed_constructor", t2))
+        # the object still works after the rejected call
+        if hasattr(obj, "add_border_user"):
+            m0 = len(obj._users)
+            obj.add_border_user(45.0, 0.5)
+            if len(obj._users) != m0 + 1:
+                chk.fail(sig0 + ("object_unusable_after_a_rejected_call",), case, observed=len(obj._users), expected=m0 + 1)
+        chk.nontriv(("error_path", name, kind, rot))
+        chk.outcome("error_paths", (name, kind))
+
+
+def error_path_jobs():
+    for rot in (0, 17):
+        for kind in ("Cell", "Cell3Sec", "CellSquare"):
+            for name in ERROR_CASES:
+                if name.startswith("invalid_sector") and kind != "Cell3Sec":
+                    continue
+                if name == "cluster_bad_square_size" and kind != "CellSquare":
+                    continue
+                if name == "wrap_around_unsupported_size" and kind == "CellSquare":
+                    continue
+                yield name, kind, rot
+
+
+# ----------------------------------------------------------------------
+# Part K: alternative entry points and falsy-but-valid arguments reach the same object
+# ----------------------------------------------------------------------
+def geometry_view(obj, probes):
+    return (np.array(obj.vertices, dtype=complex), [bool(obj.is_point_inside_shape(q)) for q in probes],
+            [complex(obj.get_border_point(a, q)) for a in (10.0, 100.0, -125.0) for q in (0.0, 0.5, 1.0)],
+            complex(obj.pos), float(np.real(obj.radius)))
+
+
+def same_view(a, b, tol, ordered):
+    va, vb = a[0], b[0]
+    ok_v = (va.shape == vb.shape and np.max(np.abs(va - vb)) <= tol) if ordered else same_point_set(va, vb, tol)
+    return ok_v and a[1] == b[1] and max(abs(x - y) for x, y in zip(a[2], b[2])) <= tol and \
+        abs(a[3] - b[3]) <= tol and abs(a[4] - b[4]) <= tol
+
+
+def run_entry_points(chk, what, pos, rot):
+    from pyphysim.cell import cell, shapes
+    case = {"part": "entry_points", "what": what, "pos": pos, "rotation": rot}
+    sig0 = ("entry_points", what)
+    with chk.guard(sig0, case):
+        chk.count("eval_entry_point_cases")
+        if what == "rectangle_corner_orders":
+            for w, h in ((1.0, 1.0), (2.0, 0.5), (0.25, 3.0)):
+                cs = [complex(-w, -h), complex(w, -h), complex(w, h), complex(-w, h)]
+                mv = np.array([pos + rot_c(c, rot) for c in cs])
+                probes = [pos + rot_c(f * c, rot) for c in cs for f in (0.9, 1.1)] + \
+                         [pos + rot_c(complex(f * w, 0), rot) for f in (0.9, 1.1)] + \
+                         [pos + rot_c(complex(0, f * h), rot) for f in (0.9, 1.1)]
+                want_inside = [True, False] * 6
+                views = []
+                for i, j in ((0, 2), (2, 0), (1, 3), (3, 1)):
+                    rect = shapes.Rectangle(pos + cs[i], pos + cs[j], rot)
+                    v = geometry_view(rect, probes)
+                    views.append(v)
+                    c2 = dict(case, half_width=w, half_height=h, corners=[i, j])
+                    if not same_point_set(v[0], mv, TOL * max(w, h)):
+                        chk.fail(sig0 + ("vertices_differ_from_model",), c2, observed=v[0], expected=mv)
+                    elif v[1] != want_inside:
+                        chk.fail(sig0 + ("containment",), c2, observed=v[1], expected=want_inside)
+                    elif not same_view(v, views[0], TOL * max(w, h), ordered=True):
+                        chk.fail(sig0 + ("differs_from_the_lower_left_upper_right_order",), c2, observed=v[0], expected=views[0][0])
+                if w == h:
+                    sq = cell.CellSquare(pos, 2 * w, cell_id=1, rotation=rot)
+                    if not same_view(geometry_view(sq, probes), views[0], TOL * w, ordered=True):
+                        chk.fail(sig0 + ("CellSquare_by_side_differs_from_Rectangle_by_corners",), case,
+                                 observed=sq.vertices, expected=views[0][0])
+        elif what == "falsy_rotation_and_pos":
+            r = 1.5
+            for kind in SHAPE_KINDS:
+                ref = None
+                forms = [(0j, 0), (0, 0), (0.0, 0.0), (-0.0, -0.0), (0j, 360), (0, 360.0), (0j, -360), (0j, 720)] \
+                    if kind != "Circle" else [(0j, 0), (0, 0), (0.0, 0), (-0.0, 0)]
+                for p0, rt in forms:
+                    obj = build_shape(kind, p0, r, rt)
+                    centre = shape_centre(kind, 0j, r)
+                    mvs, _ = model_vertices(kind, centre, r, 0)
+                    probes = [centre + f * (q - centre) for q in mvs for f in (0.9, 1.1)]
+                    v = geometry_view(obj, probes)
+                    ref = v if ref is None else ref
+                    if not same_view(v, ref, TOL * r, ordered=True):
+                        chk.fail(sig0 + (family(kind), "differs_from_pos_0j_rotation_0"),
+                                 dict(case, kind=kind, pos_given=repr(p0), rotation_given=repr(rt)),
+                                 observed=v[0], expected=ref[0])
+        elif what in ("cluster_argument_forms", "sector_entry_points"):
+            r = 2.5
+            if what == "sector_entry_points":
+                a = cell.Cell3Sec(pos, r, 1, rot)
+                b = cell.Cell3Sec(pos, r, 1, rot)
+                for obj, many in ((a, False), (b, True)):
+                    su = scripted_defaults()
+                    with patched((np.random, "random_sample", su.random_sample)):
+                        for k in (1, 2, 3):
+                            if many:
+                                obj.add_random_users_in_sector(2, k, None, 0.3)
+                            else:
+                                obj.add_random_user_in_sector(k, None, 0.3)
+                                obj.add_random_user_in_sector(k, min_dist_ratio=0.3)
+                pa, pb = [complex(u.pos) for u in a.users], [complex(u.pos) for u in b.users]
+                if pa != pb or len(pa) != 6:
+                    chk.fail(sig0 + ("one_by_one_differs_from_many",), case, observed=pa, expected=pb)
+                return
+            for ctype, n in (("simple", 7), ("3sec", 3), ("square", 4)):
+                forms = {
+                    "scalar_calls": lambda cl: [cl.add_random_users(i, k, None, m) for i, k, m in ((1, 2, 0.3), (3, 1, 0.0))],
+                    "lists": lambda cl: cl.add_random_users([1, 3], [2, 1], None, [0.3, 0.0]),
+                    "ndarrays": lambda cl: cl.add_random_users(np.array([1, 3]), np.array([2, 1]), None, np.array([0.3, 0.0])),
+                    "list_and_colors": lambda cl: cl.add_random_users([1, 3], [2, 1], ["b", "k"], [0.3, 0.0]),
+                    "tuple_ids": lambda cl: cl.add_random_users((1, 3), (2, 1), "g", (0.3, 0.0)),
+                }
+                bforms = {
+                    "scalar_calls": lambda cl: [cl.add_border_users(i, a, q) for i, a, q in ((1, 10.0, 0.5), (3, 200.0, 0.0))],
+                    "lists": lambda cl: cl.add_border_users([1, 3], [10.0, 200.0], [0.5, 0.0]),
+                    "ndarrays": lambda cl: cl.add_border_users(np.array([1, 3]), np.array([10.0, 200.0]), np.array([0.5, 0.0])),
+                    "list_and_colors": lambda cl: cl.add_border_users([1, 3], [10.0, 200.0], [0.5, 0.0], ["b", "k"]),
+                    "tuple_ids": lambda cl: cl.add_border_users((1, 3), ([10.0], [200.0]), ([0.5], [0.0]), "g"),
+                }
+                ref = None
+                for form in forms:
+                    cl = cell.Cluster(cell_radius=r, num_cells=n, pos=pos, cell_type=ctype, rotation=rot)
+                    su = scripted_defaults(40 * NDIR)
+                    with patched((np.random, "random_sample", su.random_sample)):
+                        forms[form](cl)
+                    bforms[form](cl)
+                    users = [[complex(u.pos) for u in c.users] for c in cl]
+                    colors = [[u.marker_color for u in c.users] for c in cl]
+                    d1 = np.asarray(cl.calc_dist_all_users_to_each_cell())
+                    d2 = np.asarray(cl.calc_dist_all_users_to_each_cell_no_wrap_around())
+                    allu = [complex(u.pos) for u in cl.get_all_users()]
+                    c2 = dict(case, cell_type=ctype, form=form)
+                    if [len(x) for x in users] != [3, 0, 2] + [0] * (n - 3):
+                        chk.fail(sig0 + ("users_per_cell",), c2, observed=[len(x) for x in users], expected=[3, 0, 2])
+                        continue
+                    if allu != [p for x in users for p in x]:
+                        chk.fail(sig0 + ("get_all_users_order",), c2, observed=allu, expected=users)
+                    if d1.shape != (5, n) or d1.shape != d2.shape or np.max(np.abs(d1 - d2)) > 0:
+                        chk.fail(sig0 + ("two_distance_methods_disagree",), c2, observed=d1, expected=d2)
+                    want_col = {"list_and_colors": ["b", "b", "b", "k", "k"], "tuple_ids": ["g"] * 5}.get(form)
+                    flat = [x for c in colors for x in c]
+                    if want_col is not None and flat != want_col:
+                        chk.fail(sig0 + ("user_color",), c2, observed=flat, expected=want_col)
+                    if want_col is None and len(set(flat)) != 1:
+                        chk.fail(sig0 + ("user_color_None_not_default",), c2, observed=flat, expected="the Node default")
+                    ref = users if ref is None else ref
+                    if users != ref:
+                        chk.fail(sig0 + ("positions_differ_from_scalar_calls",), c2, observed=users, expected=ref)
+        chk.nontriv(("entry_points", what, pos, rot))
+        chk.outcome("entry_points", (what, rotcond(rot)))
+
+
+# ----------------------------------------------------------------------
+# Part L: several live objects -- users placed alternately, queries interleaved; each equals its solo twin
+# ----------------------------------------------------------------------
+LIVE_SPECS = [(7, "simple", 17), (7, "simple", 0), (3, "3sec", 30), (4, "square", 45), (4, "simple", -30), (13, "simple", 17)]
+
+
+def _live_ops():
+    """(target, operation) -- every random operation gets its own scripted default stream"""
+    return [("A", ("rand", 1, 2, 0.3)), ("B", ("rand", 2, 1, 0.0)), ("A", ("dist",)), ("B", ("border", 1, 10.0, 0.5)),
+            ("A", ("border", 3, 200.0, 0.9)), ("B", ("dist",)), ("A", ("rand", [2, 3], [1, 2], 0.3)),
+            ("B", ("rand", 3, 2, 0.3)), ("A", ("dist",)), ("B", ("dist",)), ("A", ("delete", 1)), ("B", ("rand", 1, 1, 0.0)),
+            ("A", ("dist",)), ("B", ("dist",))]
+
+
+def _apply_live(cl, op):
+    if op[0] == "rand":
+        su = scripted_defaults(40 * NDIR)
+        with patched((np.random, "random_sample", su.random_sample)):
+            cl.add_random_users(op[1], op[2], None, op[3])
+        return None
+    if op[0] == "border":
+        cl.add_border_users(op[1], op[2], op[3])
+        return None
+    if op[0] == "delete":
+        cl.delete_all_users(op[1])
+        return None
+    d = np.asarray(cl.calc_dist_all_users_to_each_cell())
+    users = [complex(u.pos) for c in cl for u in c.users]
+    cells = [complex(c.pos) for c in cl]
+    return d, users, cells
+
+
+def run_live_objects(chk, ia, ib):
+    from pyphysim.cell import cell
+    case = {"part": "live_objects", "specs": [list(LIVE_SPECS[ia]), list(LIVE_SPECS[ib])]}
+    sig0 = ("live_objects",)
+    with chk.guard(sig0, case):
+        chk.count("eval_live_object_pairs")
+
+        def make(i, which):
+            n, t, rot = LIVE_SPECS[i]
+            return cell.Cluster(cell_radius=(1.0, 2.5)[which], num_cells=n, pos=POS[1 + which], cell_type=t, rotation=rot)
+
+        A, B = make(ia, 0), make(ib, 1)
+        together = {"A": [], "B": []}
+        for tgt, op in _live_ops():
+            res = _apply_live(A if tgt == "A" else B, op)
+            if res is not None:
+                d, users, cells = res
+                want = np.array([[abs(u - c) for c in cells] for u in users]).reshape(len(users), len(cells))
+                if d.shape != want.shape or (want.size and np.max(np.abs(d - want)) > 1e-12 * (1 + np.max(want))):
+                    chk.fail(sig0 + ("distance_matrix_with_another_cluster_alive",), dict(case, target=tgt),
+                             observed=d, expected=want)
+                together[tgt].append((d.tolist(), users))
+        for tgt, i, which in (("A", ia, 0), ("B", ib, 1)):
+            solo = make(i, which)
+            got = []
+            for t2, op in _live_ops():
+                if t2 == tgt:
+                    res = _apply_live(solo, op)
+                    if res is not None:
+                        got.append((res[0].tolist(), res[1]))
+            if got != together[tgt]:
+                chk.fail(sig0 + ("differs_from_the_same_operations_on_a_lone_cluster",), dict(case, target=tgt),
+                         observed=together[tgt][-1][1], expected=got[-1][1])
+        chk.nontriv(("live", ia, ib))
+        chk.outcome("live_object_pairs", (LIVE_SPECS[ia][1], LIVE_SPECS[ib][1]))
+
+
+# ----------------------------------------------------------------------
 def jobs(tier):
     """(cluster-sequence jobs [run first, each in a fork of the still clean worker], light jobs dealt
     round-robin, split E2 jobs executed by every shard on its share of the subtrees)"""
@@ -1489,10 +1824,23 @@ def jobs(tier):
         out.append(("cluster", cfg))
     for cfg in pp_configs(tier):
         out.append(("pp", cfg))
-    depth = 3 if tier == "thorough" else 2
     for kind in HIST_KINDS:
+        # depth 3 everywhere in thorough; in quick for the shapes whose queries are cheap (effects that only
+        # show from the third step), depth 2 for Cell3Sec and the CellWrap kinds
+        depth = 3 if (tier == "thorough" or "Cell3Sec" not in kind and not kind.startswith("CellWrap(")) else 2
         for h in histories(kind, depth):
             out.append(("history", (kind, h)))
+    for cfg in error_path_jobs():
+        out.append(("error_path", cfg))
+    for what in ("rectangle_corner_orders", "falsy_rotation_and_pos", "cluster_argument_forms", "sector_entry_points"):
+        for pos in (0j, 1 + 2j):
+            for rot in (0, 17, 90):
+                if what == "falsy_rotation_and_pos" and (pos != 0j or rot != 0):
+                    continue
+                out.append(("entry_points", (what, pos, rot)))
+    for ia in range(len(LIVE_SPECS)):
+        for ib in range(len(LIVE_SPECS)):
+            out.append(("live_objects", (ia, ib)))
     for kind in SHAPE_KINDS + ["Cluster", "calc_rotated_pos"]:
         out.append(("aliasing", (kind,)))
     out.append(("pp_aliasing", ()))
@@ -1539,6 +1887,12 @@ def run_job(chk, job, shard_i=0, shard_n=1):
         run_dtypes(chk, *cfg)
     elif part == "cluster_sequence":
         run_cluster_sequence(chk, *cfg)
+    elif part == "error_path":
+        run_error_path(chk, *cfg)
+    elif part == "entry_points":
+        run_entry_points(chk, *cfg)
+    elif part == "live_objects":
+        run_live_objects(chk, *cfg)
     elif part == "random":
         c, nusers, bound, split = cfg
         run_random(chk, c, bound, nusers, split, shard_i, shard_n)
@@ -1564,7 +1918,12 @@ def main(chk: Check):
                "float32 inputs are not in the domain (their rounding exceeds the 1e-9 r tolerance)")
     chk.assume("every cluster sequence runs in a fork of a worker that has not built any cluster, so class-level "
                "state starts empty for each sequence")
-    chk.extra["setter_history_depth"] = 3 if tier == "thorough" else 2
+    chk.extra["setter_history_depth"] = "3" if tier == "thorough" else "3 (2 for Cell3Sec and the CellWrap kinds)"
+    chk.assume("error paths: only calls for which the library documents an exception are required to raise "
+               "(ratio outside [0,1], user outside the cell, non-Node user, invalid sector, non-square size of a "
+               "square cluster, unknown cell type, wrap-around of a non-19 cluster, read-only setters); radius <= 0, "
+               "hexagon cluster sizes outside the table and min_dist_ratio >= 1 are not validated by the library "
+               "and are outside the domain; multi-cell Cluster calls are not required to be atomic")
     chk.extra["quick_tier_design"] = ("covering design over pos x radius x rotation for containment, border points, "
                                       "clusters and E2 (every kind x every rotation; all pos/radius pairs); thorough "
                                       "= full product")
@@ -1636,5 +1995,12 @@ def replay(case, chk: Check):
             run_aliasing(chk, case["kind"])
     elif part == "dtypes":
         run_dtypes(chk, case["kind"], case["form"])
+    elif part == "error_path":
+        run_error_path(chk, case["name"], case["kind"], case["rotation"])
+    elif part == "entry_points":
+        run_entry_points(chk, case["what"], complex(case["pos"]), case["rotation"])
+    elif part == "live_objects":
+        ia, ib = [LIVE_SPECS.index(tuple(x)) for x in case["specs"]]
+        run_live_objects(chk, ia, ib)
     else:
         raise Broken("unknown replay case %r" % (case,))
